@@ -90,8 +90,12 @@ fn main() {
         "flush" => cpufam::run_flush(&mut o, args.seed, args.n),
         "rptnew" => {
             out::Ev::new("x");
-            o.emit(out::Ev::new("reset").str("kind", "none").w("root", 0).n("rix", -1).w("offset", 0).words("pool", &[]));
+            o.emit(out::Ev::new("reset").str("kind", "none").w("root", 0).n("rix", -1).w("offset", 0).words("pool", &[]).raw("mem", "[]"));
             pt::run_rpt_new(&mut o, args.seed, args.n)
+        }
+        "ptstim" => {
+            let kind = if args.mode.is_empty() { "mapped".to_string() } else { args.mode.clone() };
+            pt::run_stimuli(&mut o, &args.input, &kind, args.n.max(1), args.seed)
         }
         "pt" => {
             let kinds: Vec<&str> = if args.mode.is_empty() { vec!["mapped", "offset", "recursive"] } else { args.mode.split(',').collect() };
